@@ -1,29 +1,14 @@
 """Source expressions -> Generated/ExprsFixMask.lean (see harness/exprtrans.py for the reading of the Python subset):
-the bad-bin mask of `fix.mask_bad_bins` (a Boolean function of one reference row and of which columns the reference
-has) and the weight formulas of `fix.apply_weights` (slices: the formula each statement evaluates, elementwise).
-Props/C04SrcMask.lean proves that the hand-written model functions equal these generated ones."""
-from ..exprtrans import emit_bool, emit_slices
+the bad-bin mask of `fix.mask_bad_bins`, a Boolean function of one reference row and of which columns the reference has.
+Props/C04SrcMask.lean proves that the hand-written model function `badBin` equals the generated one."""
+from ..exprtrans import emit_bool
 
 NAME = "ExprsFixMask"
 BOOL_SPECS = [
     ("cnvlib/fix.py", "mask_bad_bins", "src_mask_bad_bins", {},
      "fix.mask_bad_bins for one row (params.* constants inlined as the exact doubles; the asserts are preconditions)"),
 ]
-W = "cnvlib/fix.py", "apply_weights"
-SLICE_SPECS = [
-    W + ("tgt_simple_wts", "src_weight_simple_target", None, None,
-         "apply_weights: size/variance weight of an on-target bin (bin_sz = sqrt of the bin size)"),
-    W + ("anti_simple_wts", "src_weight_simple_antitarget", None, None,
-         "apply_weights: the same for an off-target bin"),
-    W + ("fancy_wt", "src_weight_fancy", None, None,
-         "apply_weights: reference-spread weight (ref_matched = the row's value in the chosen spread column)"),
-    W + ("weights#0", "src_weight_pooled", {"fancy_wt": "src_weight_fancy"}, None,
-         "apply_weights: the weight with a pooled reference (x is the literal bound in the function)"),
-    W + ("weights#1", "src_weight_flat", None, None, "apply_weights: the weight with a flat reference"),
-    W + ("call:clip", "src_weight_clip", None, None, "apply_weights: the final clip"),
-]
 
 
 def extract(repo, o):
     emit_bool(repo, o, BOOL_SPECS)
-    emit_slices(repo, o, SLICE_SPECS)
